@@ -24,8 +24,8 @@ def parse_snap(lines):
     st = {"conns": {}, "chans": {}, "queues": {}, "exchanges": {}, "server": None, "raw": lines}
     for l in lines:
         if l.startswith("conn "):
-            m = re.match(r"conn (\d+) qos=(\S+)", l)
-            st["conns"][int(m.group(1))] = {"qos": [int(x) for x in m.group(2).split("/")]}
+            m = re.match(r"conn (\d+) (?:st=(\S+) )?qos=(\S+)", l)
+            st["conns"][int(m.group(1))] = {"stage": m.group(2) or "o", "qos": [int(x) for x in m.group(3).split("/")]}
         elif l.startswith("ch "):
             m = re.match(r"ch (\d+)\.(\d+) st=(\d) flow=(\d) dtag=(\d+) ctag=(\d+) confirm=(\d) cur=(\d) qos=(\S+) cqos=(\S+) consumers=\[(.*?)\] unacked=\[(.*?)\]$", l)
             if not m:
